@@ -960,7 +960,7 @@ def _smart_split_model(cx, port, p, fd):
     want = {'simple': 'plain-split', 'whitespace': 'whitespace-runs', 'monocolumn': 'identity', 'quoted': 'quoted', 'quoted_rfc': 'quoted'}
     wrong, warn = {}, []
     for pol in POLICIES:
-        src, dlm, flag = AX.Abs('Src'), AX.Abs('Dlm', truth=True), AX.Abs('Flag')
+        src, dlm, flag = AX.Abs('Env', name='the line is not empty'), AX.Abs('Dlm', truth=True), AX.Abs('Flag')
 
         def on_call(ex, node, fname, recv, args):
             short = node.func.attr if isinstance(node.func, ast.Attribute) else fname
@@ -992,6 +992,9 @@ def _smart_split_model(cx, port, p, fd):
         for r in runs:
             v = r.outcome[1]
             facts = {k[1]: val for k, val in r.state.items() if isinstance(k, tuple) and len(k) == 2 and k[0] == 'contains'}
+            empty = r.state.get(('truth', 'the line is not empty')) is False
+            if empty:
+                facts = {'dlm': False, 'quote': False}
             if isinstance(v, AX.Abs) and v.kind == 'quoted':
                 got, flagv, ok = 'quoted', None, v.props.get('ok')
             elif isinstance(v, (list, tuple)) and len(v) == 2:
@@ -1008,7 +1011,7 @@ def _smart_split_model(cx, port, p, fd):
             # (plain split; the quoted splitter when the line has no quote either)
             same = got == want[pol] or (got == 'identity' and facts.get('dlm') is False and (pol == 'simple' or (pol in ('quoted', 'quoted_rfc') and facts.get('quote') is False))) \
                 or (got == 'plain-split' and ok and pol in ('quoted', 'quoted_rfc') and facts.get('quote') is False)
-            when = ' for a line {}'.format(' and '.join('{} {}'.format('with' if val else 'without', 'the delimiter' if k == 'dlm' else 'a double quote') for k, val in sorted(facts.items()))) if facts else ''
+            when = ' for an empty line' if empty else ' for a line {}'.format(' and '.join('{} {}'.format('with' if val else 'without', 'the delimiter' if k == 'dlm' else 'a double quote') for k, val in sorted(facts.items()))) if facts else ''
             if not same:
                 wrong[pol] = got + when
             elif not ok:
